@@ -91,6 +91,9 @@ func c09ShedRun(r *zsim.Run) {
 	emaPeaks := map[int]*float64{} // per caller: the largest emaHi while its Allow is in progress
 	admitted, resolved, rejected := 0, 0, 0
 	callers := 2 + o.Intn(7)
+	if r.Tier == "thorough" && o.Intn(4) == 0 {
+		callers = 9 + o.Intn(8) // the thorough tier also draws larger runs
+	}
 	done := 0
 	capacity := func(now time.Duration) int64 {
 		// reference: buckets aligned at the creation instant; the last `buckets` buckets without the current one
